@@ -263,8 +263,7 @@ func (c *Ctx) bufferChecked(eng *ranges.Engine, fn *ssa.Function, p ssa.Value, d
 			if len(d.Succs) != 2 {
 				continue
 			}
-			cond, ok := ifCond(d).(*ssa.BinOp)
-			if !ok || !(mentionsLen(cond.X, p, 0) || mentionsLen(cond.Y, p, 0)) {
+			if !condTestsLen(ifCond(d), p) {
 				continue
 			}
 			// one side must leave with a non-nil error, the other must dominate b
@@ -319,6 +318,65 @@ func (c *Ctx) bufferChecked(eng *ranges.Engine, fn *ssa.Function, p ssa.Value, d
 		}
 	}
 	return true, "", detail
+}
+
+// condTestsLen: the branch condition compares len(p) — directly, or inside a checking helper whose
+// outcome (bool result, or error result compared with nil) is the condition and which receives p
+// or len(p) as an argument and compares that parameter.
+func condTestsLen(cond ssa.Value, p ssa.Value) bool {
+	if bo, ok := cond.(*ssa.BinOp); ok && (mentionsLen(bo.X, p, 0) || mentionsLen(bo.Y, p, 0)) {
+		return true
+	}
+	call, _, _, ok := ranges.OutcomeOfCond(cond)
+	if !ok {
+		return false
+	}
+	sc := call.Call.StaticCallee()
+	if sc == nil || sc.Blocks == nil || call.Call.IsInvoke() || len(call.Call.Args) != len(sc.Params) {
+		return false
+	}
+	for i, a := range call.Call.Args {
+		if !(a == p || sameSlice(a, p) || mentionsLen(a, p, 0)) {
+			continue
+		}
+		q := sc.Params[i]
+		for _, b := range sc.Blocks {
+			bo, ok := ifCond(b).(*ssa.BinOp)
+			if !ok {
+				continue
+			}
+			if mentionsVal(bo.X, q, 0) || mentionsVal(bo.Y, q, 0) {
+				return true
+			}
+		}
+	}
+	return false
+}
+
+// mentionsVal: does the expression tree of v contain q or len(q)?
+func mentionsVal(v ssa.Value, q ssa.Value, depth int) bool {
+	if depth > 5 || v == nil {
+		return false
+	}
+	if v == q {
+		return true
+	}
+	if x, ok := isLenOf(v); ok && x == q {
+		return true
+	}
+	switch y := v.(type) {
+	case *ssa.BinOp:
+		return mentionsVal(y.X, q, depth+1) || mentionsVal(y.Y, q, depth+1)
+	case *ssa.Convert:
+		return mentionsVal(y.X, q, depth+1)
+	case *ssa.Phi:
+		for _, e := range y.Edges {
+			if mentionsVal(e, q, depth+1) {
+				return true
+			}
+		}
+	}
+	return false
 }
 
 // leadsOnlyToErrors: every return reachable from b carries a non-nil error.
